@@ -77,26 +77,45 @@ Print Assumptions C08_size_test_needed.
    command, the file is the generated C, the binary is a function of both and of what else the C
    compiler reads).  This is what the cache model's "code / cmd" identifiers stand for. *)
 Theorem C08_source_and_option_edits_show_in_text :
+  HEADING_COVERS_EXECUTED_COMMAND = true /\
   forall gen exec hash ccinfo_of base rel dev e c,
     keeps_world e = true ->
     behaviour gen exec base rel dev (apply_edit e c) <> behaviour gen exec base rel dev c ->
-    text_of gen hash ccinfo_of base rel dev (apply_edit e c) <> text_of gen hash ccinfo_of base rel dev c.
-Proof. intros. eapply edit_shows_in_text_lemma; eauto. Qed.
+    text_of gen hash ccinfo_of base rel dev HEADING_COVERS_EXECUTED_COMMAND (apply_edit e c)
+      <> text_of gen hash ccinfo_of base rel dev HEADING_COVERS_EXECUTED_COMMAND c.
+Proof. split; [reflexivity|]. intros. eapply edit_shows_in_text_lemma; eauto. Qed.
 Print Assumptions C08_source_and_option_edits_show_in_text.
 
-(* --cflags and --release always change the recorded command (gcc flag sets scraped from cdefs.lua) *)
-Theorem C08_cflags_and_release_change_command :
+(* --cflags, --release and the link options (--ldflags / LDFLAGS / ## ldflags / linkdir / linklib) always
+   change the recorded command (gcc flag sets scraped from cdefs.lua; the link options because the heading
+   records the command compile_binary executes: Gen.HEADING_COVERS_EXECUTED_COMMAND, also observed on every
+   build of every replayed history) *)
+Theorem C08_cflags_ldflags_release_change_command :
   forall base c,
     (forall l, l <> c_cflags c ->
-               mkcmd base GCC_RELEASE_FLAGS GCC_DEVEL_FLAGS (apply_edit (ECflags l) c) <> mkcmd base GCC_RELEASE_FLAGS GCC_DEVEL_FLAGS c) /\
+               mkcmd base GCC_RELEASE_FLAGS GCC_DEVEL_FLAGS HEADING_COVERS_EXECUTED_COMMAND (apply_edit (ECflags l) c)
+               <> mkcmd base GCC_RELEASE_FLAGS GCC_DEVEL_FLAGS HEADING_COVERS_EXECUTED_COMMAND c) /\
+    (forall l, l <> c_ldflags c ->
+               mkcmd base GCC_RELEASE_FLAGS GCC_DEVEL_FLAGS HEADING_COVERS_EXECUTED_COMMAND (apply_edit (ELdflags l) c)
+               <> mkcmd base GCC_RELEASE_FLAGS GCC_DEVEL_FLAGS HEADING_COVERS_EXECUTED_COMMAND c) /\
     (forall b, b <> c_release c ->
-               mkcmd base GCC_RELEASE_FLAGS GCC_DEVEL_FLAGS (apply_edit (ERelease b) c) <> mkcmd base GCC_RELEASE_FLAGS GCC_DEVEL_FLAGS c).
+               mkcmd base GCC_RELEASE_FLAGS GCC_DEVEL_FLAGS HEADING_COVERS_EXECUTED_COMMAND (apply_edit (ERelease b) c)
+               <> mkcmd base GCC_RELEASE_FLAGS GCC_DEVEL_FLAGS HEADING_COVERS_EXECUTED_COMMAND c).
 Proof.
-  intros base c. split.
+  intros base c. split; [|split].
   - intros l N. apply cflags_edit_changes_command_lemma; auto.
+  - intros l N. apply ldflags_edit_changes_command_lemma; auto.
   - intros b N. apply release_toggle_changes_command_lemma; auto. exact gcc_release_differs_from_devel.
 Qed.
-Print Assumptions C08_cflags_and_release_change_command.
+Print Assumptions C08_cflags_ldflags_release_change_command.
+
+(* the heading must record the executed command: if it leaves the link options out, an edit of them alone
+   leaves the C file as it is (and the binary linked with the old options is served) *)
+Theorem C08_heading_must_cover_link_options :
+  forall gen hash ccinfo_of base rel dev l c,
+    text_of gen hash ccinfo_of base rel dev false (apply_edit (ELdflags l) c) = text_of gen hash ccinfo_of base rel dev false c.
+Proof. intros. apply link_edit_leaves_text_lemma. reflexivity. Qed.
+Print Assumptions C08_heading_must_cover_link_options.
 
 (* THE DOCUMENTED LIMIT (outside the property's step kinds, a genuine stale artefact): an edit of what
    the C compiler reads besides the C file that the heading hash does not reflect leaves the text of the
@@ -108,7 +127,8 @@ Print Assumptions C08_cflags_and_release_change_command.
 Theorem C08_header_edit_leaves_text :
   forall gen hash ccinfo_of base rel dev w c,
     ccinfo_of w = ccinfo_of (c_world c) ->
-    text_of gen hash ccinfo_of base rel dev (apply_edit (EWorld w) c) = text_of gen hash ccinfo_of base rel dev c.
+    text_of gen hash ccinfo_of base rel dev HEADING_COVERS_EXECUTED_COMMAND (apply_edit (EWorld w) c)
+    = text_of gen hash ccinfo_of base rel dev HEADING_COVERS_EXECUTED_COMMAND c.
 Proof. intros. apply header_edit_leaves_text_lemma; auto. Qed.
 Print Assumptions C08_header_edit_leaves_text.
 
